@@ -378,14 +378,20 @@ class Run:
             kind = re.search(r"<kind>(.*?)</kind>", e).group(1)
             first = e.split("</stack>")[0]
             frames = re.findall(r"<frame>(.*?)</frame>", first, re.S)
+            if kind.startswith("Leak_"):
+                continue            # allocation sites of the interpreter reached through a callback (generator, read/write) are not bee2's
             bee = []
+            first_own = None        # object of the innermost frame that is not the C library / a valgrind replacement
             for f in frames:
                 obj = re.search(r"<obj>(.*?)</obj>", f)
                 fn = re.search(r"<fn>(.*?)</fn>", f)
-                if obj and "libbee2" in obj.group(1):
+                o = obj.group(1) if obj else ""
+                if first_own is None and not ("vgpreload_" in o or "/libc.so" in o or "/libc-" in o or "ld-linux" in o):
+                    first_own = o
+                if "libbee2" in o:
                     bee.append(fn.group(1) if fn else "?")
-            if not bee:
-                continue
+            if not bee or "libbee2" not in (first_own or ""):
+                continue            # the access happened in the driver (e.g. inside a Python callback called by bee2)
             n += 1
             self.add_violation("memcheck:%s:%s:%s" % (kind, bee[0], bee[-1]),
                                "valgrind memcheck: %s inside bee2 (%s <- %s)" % (kind, bee[0], bee[-1]),
